@@ -12,8 +12,10 @@ pub mod c04;
 pub mod c08;
 pub mod c09;
 pub mod c10;
+pub mod c11;
 pub mod c12;
 pub mod c13;
+pub mod c14;
 pub mod c16;
 pub mod c17;
 pub mod c19;
@@ -34,7 +36,9 @@ fn in_judge(prop: &str) -> Option<Judge> {
         "C08" => c08::judge,
         "C09" => c09::judge,
         "C10" => c10::judge,
+        "C11" => c11::judge,
         "C12" => c12::judge,
+        "C14" => c14::judge,
         "C13" => c13::judge,
         "C16" => c16::judge,
         "C17" => c17::judge,
@@ -52,7 +56,9 @@ pub fn run(ctx: &Ctx) -> Report {
         "C08" => c08::run(ctx),
         "C09" => c09::run(ctx),
         "C10" => c10::run(ctx),
+        "C11" => c11::run(ctx),
         "C12" => c12::run(ctx),
+        "C14" => c14::run(ctx),
         "C13" => c13::run(ctx),
         "C16" => c16::run(ctx),
         "C17" => c17::run(ctx),
